@@ -19,6 +19,7 @@ CONSTANTS
   HbFilterDirect = TRUE
   CutAtGE = TRUE
   SendsGraft = TRUE
+  BubbleToD = TRUE
   JoinFilterDirect = FALSE
   GraftNeedsStream = FALSE
   AllowDirectInFanout = TRUE
